@@ -55,6 +55,10 @@ def records_for(ctx, d, rng, k, rid0):
                         whitening=['none', 'monomial', 'triangular'][k % 3],
                         rate=[1024, 2048, 32768][k % 3], empty_templates=empty, features=True,
                         geometry=['grid', 'line', 'scatter'][k % 3])
+    if (k // 2) % 2:
+        # a probe table whose labels are not 0..n-1 (templates_probes returns the stored LABEL of the peak channel)
+        labels = [[1, 2], [3, 1], [0, 2], [5, 5]][(k // 4) % 4]
+        ds['probes'] = np.array([labels[0] if c < (nc + 1) // 2 else labels[1] for c in range(nc)])
     curated = k % 2 == 1
     if curated:
         ds['sc'] = curate_single_origin(rng, ds['st'], nt)
@@ -96,7 +100,8 @@ def records_for(ctx, d, rng, k, rid0):
                     raise ObservationError('durations are not whole samples although every waveform is sampled '
                                            'on the grid: %r (rate %r)' % (dur, ds['rate']))
                 recs.append(dict(id=rid0 + len(recs), kind='peaks', use=use, W=ints(W),
-                                 channels=as_list(ch), dur=ints(dur)))
+                                 channels=as_list(ch), dur=ints(dur), chprobe=as_list(m.channel_probes),
+                                 tprobes=as_list(m.templates_probes) if use == 'templates' else []))
         with ctx.guard('depths', dict(dataset=k)):
             dep = m.get_depths()
             x = np.asarray(ds['pcf'])[:, 0, :]
